@@ -176,6 +176,12 @@ func init() {
 		ex.yieldFree("sym.Yield")
 		return nil
 	}
+	symFuncs["VirtualNow"] = func(ex *Exec, fr *frame, fn *ssa.Function, args []Value) Value {
+		if ex.sched == nil {
+			return ex.intConst(0)
+		}
+		return ex.intConst(ex.sched.vnow)
+	}
 	symFuncs["Tier"] = func(ex *Exec, fr *frame, fn *ssa.Function, args []Value) Value {
 		return ex.intConst(int64(ex.w.opts.tier))
 	}
